@@ -131,11 +131,17 @@ def generate(rng, tier, mode="default"):
         for op in ("add_first 5", "add_last 5", "add_at 5 0", "iter n a5 n", "zip n a5:6 n"):
             for plan in ("0", "10"):
                 out.append([hdr()] + build("a", avals(n)) + build("b", [20, 21]) + ["plan " + plan, "a " + op] + probe() + ["END"])
-    # both allocator families; a list pair with different families (nodes copied by add_all are requested from the source's allocator)
+    # both allocator families; a list pair with different families (nodes copied by add_all are requested from the destination's allocator)
     for ma, mb in (("libc", "libc"), ("conf", "libc"), ("libc", "conf")):
         out.append([hdr(ma, mb)] + build("a", [1, 2]) + build("b", [3]) + ["a to_array", "a copy_shallow", "b sort", "a remove_all", "b remove_first"] + ["END"])
     out.append([hdr("conf", "libc")] + build("a", [1, 2]) + build("b", [3]) + ["a add_all", "a remove_all", "END"])
     out.append([hdr("conf", "libc")] + build("a", [1, 2]) + build("b", [3]) + ["a splice", "a remove_all", "END"])
+    # mixed families: the copies carry the destination's family, also when the copy is rolled back
+    for ma, mb in (("conf", "libc"), ("libc", "conf")):
+        for op in ("a add_all", "a add_all_at 1", "b add_all", "b add_all_at 0"):
+            out.append([hdr(ma, mb)] + build("a", [1, 2]) + build("b", [3, 4]) + [op, "a remove_first", "b remove_last", "a remove_all", "b remove_all_cb", "END"])
+            for plan in ("0", "10"):
+                out.append([hdr(ma, mb)] + build("a", [1, 2]) + build("b", [3, 4]) + ["plan " + plan, op, "a remove_all", "END"])
     # ---------------------------------------------------------------- random long histories
     n = 250 if quick else 4000
     for _ in range(n):
@@ -212,6 +218,6 @@ def sim_iter(l, prog, desc):
             if not desc: pos -= 1
         elif t[0] == "a" and last is not None:
             if desc: l.insert(last, int(t[1:]))
-            else: l.insert(last + 1, int(t[1:])); pos += 1; last += 1     # the inserted node becomes the current one
+            else: l.insert(last + 1, int(t[1:])); pos += 1                # the yielded element stays the current one
         elif t[0] == "p" and last is not None: l[last] = int(t[1:])
     return l
